@@ -1,6 +1,7 @@
 package modes
 
 import (
+	"strings"
 	"bytes"
 	"context"
 	"encoding/json"
@@ -38,6 +39,25 @@ func sendAny(ctx context.Context, t lime.Transport, e interface{}) error {
 		return t.Send(ctx, x)
 	}
 	return fmt.Errorf("harness: not an envelope: %T", e)
+}
+
+func sendGuard(ctx context.Context, t lime.Transport, e interface{}) (err error, pv string) {
+	defer func() {
+		if r := recover(); r != nil {
+			pv = fmt.Sprint(r)
+		}
+	}()
+	return sendAny(ctx, t, e), ""
+}
+
+func recvGuard(ctx context.Context, t lime.Transport) (env interface{}, err error, pv string) {
+	defer func() {
+		if r := recover(); r != nil {
+			pv = fmt.Sprint(r)
+		}
+	}()
+	env, err = t.Receive(ctx)
+	return env, err, ""
 }
 
 // c12Ref is the reference wire form of an envelope (what a fault-free Send writes), or nil when
@@ -146,8 +166,12 @@ func c12Run(e *Env, c *c12Case) error {
 			cancel()
 			mplan = [][]interface{}{{"ctx"}}
 		}
-		err := sendAny(ctx, tx, env)
+		err, pv := sendGuard(ctx, tx, env)
 		cancel()
+		if pv != "" {
+			e.Rep.Violate("impl", "c12-panic", fmt.Sprintf("Send #%d panics: %s", i, pv), c)
+			return nil
+		}
 		w, _ := fc.TakeWire()
 		attempted++
 		obs.SendOK = append(obs.SendOK, err == nil)
@@ -199,17 +223,31 @@ func c12Run(e *Env, c *c12Case) error {
 	rc := &pair.FaultConn{In: delivered, ReadPlan: append([]pair.ReadEv{}, c.RPlan...)}
 	rx := lime.NewTCPTransportFromConn(rc, true, nil)
 	var got [][]byte
-	calls := 0
+	calls := 0      // Receive calls up to and including the first error
+	consumedAtErr := -1
 	var rerr error
-	for calls < len(c.Envs)+2 {
+	errs := 0
+	expired := false
+	for n := 0; n < len(c.Envs)+4 && errs < 3; n++ {
 		ctx, cancel := context.WithTimeout(context.Background(), 10*time.Second)
-		env, err := rx.Receive(ctx)
+		rc.OnExpire = func() { expired = true; cancel() }
+		env, err, pv := recvGuard(ctx, rx)
 		cancel()
-		calls++
+		if pv != "" {
+			e.Rep.Violate("impl", "c12-panic", "Receive panics: "+pv, c)
+			return nil
+		}
+		if errs == 0 {
+			calls++
+		}
 		if err != nil {
-			rerr = err
+			if errs == 0 {
+				rerr = err
+				consumedAtErr = rc.Consumed()
+			}
+			errs++
 			obs.Received = append(obs.Received, "err:"+err.Error())
-			break
+			continue
 		}
 		b, merr := json.Marshal(env)
 		if merr != nil {
@@ -217,6 +255,12 @@ func c12Run(e *Env, c *c12Case) error {
 		}
 		got = append(got, b)
 		obs.Received = append(obs.Received, string(b))
+		if errs > 0 {
+			e.Rep.Count("read: an envelope handed out after an error")
+		}
+	}
+	if expired {
+		e.Rep.Count("read: context ended during a stall inside the stream")
 	}
 	recs := rc.TakeReads()
 	sizes := []int{}
@@ -263,7 +307,7 @@ func c12Run(e *Env, c *c12Case) error {
 			break
 		}
 	}
-	if len(got) != wantK {
+	if len(got) != wantK && !expired {
 		e.Rep.Violate("impl", "c12-recv-count", fmt.Sprintf("%d envelopes handed out, %d are whole on the delivered stream (sends ok=%v, delivered %d of %d bytes, last error %v)", len(got), wantK, obs.SendOK, len(delivered), len(wire), rerr), c)
 	}
 	if allOK && c.Cut < 0 && rerr == nil {
@@ -273,16 +317,21 @@ func c12Run(e *Env, c *c12Case) error {
 		var r struct {
 			Out []json.RawMessage `json:"out"`
 		}
-		if derr := e.Drv.Call(map[string]interface{}{"m": "frames", "stream": toInts(delivered), "plan": sizes, "n": calls}, &r); derr != nil {
+		mstream := delivered
+		if consumedAtErr >= 0 && consumedAtErr < len(mstream) {
+			mstream = mstream[:consumedAtErr] // what the connection had handed out when the first error was reported
+		}
+		if derr := e.Drv.Call(map[string]interface{}{"m": "frames", "stream": toInts(mstream), "plan": sizes, "n": calls}, &r); derr != nil {
 			return derr
 		}
-		ok := len(r.Out) == len(obs.Received)
+		ok := len(r.Out) == calls
 		for i := 0; ok && i < len(r.Out); i++ {
 			var l []int
+			isErr := strings.HasPrefix(obs.Received[i], "err:")
 			if json.Unmarshal(r.Out[i], &l) == nil {
-				ok = i < len(got) && bytes.Equal(bytes.TrimSpace(fromInts(l)), got[i])
+				ok = !isErr && string(bytes.TrimSpace(fromInts(l))) == obs.Received[i]
 			} else {
-				ok = i >= len(got)
+				ok = isErr
 			}
 		}
 		if !ok {
@@ -321,6 +370,14 @@ func c12Envs(e *Env, g *codec.Gen, n int) []*codec.VEnv {
 	return out
 }
 
+func jsonMsg(id, content string) *codec.VEnv {
+	t, err := codec.ParseTree([]byte(content))
+	if err != nil {
+		panic(err)
+	}
+	return &codec.VEnv{Kind: "message", ID: id, Type: &codec.VMT{T: "application", S: "json"}, Content: &codec.VDoc{K: "json", V: t}}
+}
+
 func c12Tricky() []*codec.VEnv {
 	txt := func(id, s string) *codec.VEnv {
 		return &codec.VEnv{Kind: "message", ID: id, Type: &codec.VMT{T: "text", S: "plain"}, Content: &codec.VDoc{K: "text", S: s}}
@@ -330,13 +387,15 @@ func c12Tricky() []*codec.VEnv {
 		txt("2", "a\"}\\\"{\n\\"),
 		txt("3", "é  }]"),
 		{Kind: "notification", ID: "4", Event: "received"},
+		jsonMsg("5", `{"id":"inner","to":"victim@example.org","type":"text/plain","content":"x"}`),
+		jsonMsg("6", `{"a":[{"id":"n","event":"received"}],"b":{"id":"c","method":"get","uri":"/ping"}}`),
 		txt("", "x"),
 	}
 }
 
 func init() {
 	Register("c12", func(e *Env) error {
-		e.Rep.Rule = "real TCP transports (hook constructor) over a scripted connection. Sending side: every short-write length 0..len of an envelope's encoding combined with a transient timeout, double timeouts, timeout then hard error, timeout then end of the context, hard error at every length, context over before the call; the bytes that reached the connection are compared with the model's write loop and with the envelope's encoding (prefix; whole on success). Receiving side: the resulting stream delivered under every single split point, every pair of split points (thorough; sampled in quick), byte by byte, coalesced, random plans with transient timeouts and stalls, and cut at every byte offset; the Receive results are compared with the model's receive loop run on the observed read sizes and with the statement (a prefix of what was sent, each intact, complete when nothing was cut, an error afterwards). Plus a TLS variant over a fragmenting in-memory link. Non-trivial = a case with a short write, a split or a cut; distinct by sizes."
+		e.Rep.Rule = "real TCP transports (hook constructor) over a scripted connection. Sending side: every short-write length 0..len of an envelope's encoding combined with a transient timeout, double timeouts, timeout then hard error, timeout then end of the context, hard error at every length, context over before the call; the bytes that reached the connection are compared with the model's write loop and with the envelope's encoding (prefix; whole on success). Receiving side: the resulting stream delivered under every single split point, every pair of split points (thorough; sampled in quick), byte by byte, coalesced, random plans with transient timeouts and stalls, and cut at every byte offset, and with the caller's context ending during a stall at every byte offset (followed by further Receive calls); the Receive results are compared with the model's receive loop run on the observed read sizes and with the statement (a prefix of what was sent, each intact, complete when nothing was cut, an error afterwards). Plus a TLS variant over a fragmenting in-memory link. Non-trivial = a case with a short write, a split or a cut; distinct by sizes."
 		if e.Replay != "" {
 			b, err := readReplayCase(e.Replay)
 			if err != nil {
@@ -397,6 +456,9 @@ func init() {
 			if round == 0 {
 				envs = c12Tricky()[:3]
 			}
+			if round == 1 {
+				envs = c12Tricky()[3:]
+			}
 			total := 0
 			for _, v := range envs {
 				total += len(c12Ref(v))
@@ -412,6 +474,10 @@ func init() {
 					return err
 				}
 				if err := run(&c12Case{Family: "r-cut", Envs: envs, Cut: a, CancelBefore: -1, RPlan: randomReadPlan(e, total)}); err != nil {
+					return err
+				}
+				// the caller's context ends during a stall after a bytes; later calls get a fresh one
+				if err := run(&c12Case{Family: "r-expire", Envs: envs, Cut: -1, CancelBefore: -1, RPlan: []pair.ReadEv{{Kind: "data", N: a}, {Kind: "expire"}}}); err != nil {
 					return err
 				}
 			}
